@@ -1081,6 +1081,7 @@ func classify(c Case) core.Class {
 				cl.Labels = append(cl.Labels, "mut:"+m)
 			}
 		}
+		cl.Labels = append(cl.Labels, unicodeReqLabels(r, v)...)
 		if nc >= 1 && (v.MustAdmit || (v.MustReject && len(v.Reasons) == 1)) {
 			cl.NonTrivial = true
 			fp = append(fp, kind)
@@ -1091,6 +1092,26 @@ func classify(c Case) core.Class {
 	}
 	cl.Fingerprint = fmt.Sprintf("c=%s|redir=%v|hh=%v|%s|%s", bucket(nc), c.Cfg.BehindRedir, c.Cfg.HostHeader != "", cfgFeatures(c.Cfg), strings.Join(fp, ","))
 	return cl
+}
+
+// unicodeReqLabels: the coarse labels of the Unicode request classes (the fine ones are the mut: labels).
+func unicodeReqLabels(r Req, v verdict) []string {
+	var out []string
+	if strings.Contains(r.Mut, "fold-partner") {
+		out = append(out, "unicode-request:fold-partner")
+	}
+	if strings.Contains(r.Mut, "confusable") {
+		out = append(out, "unicode-request:confusable")
+	}
+	if len(out) > 0 {
+		switch {
+		case v.MustReject && len(v.Reasons) == 1:
+			out = append(out, "unicode-request:only-violation")
+		case !v.MustReject && !v.MustAdmit:
+			out = append(out, "unicode-request:grey-same-lower-case-form")
+		}
+	}
+	return out
 }
 
 // unicodeCfgLabels: does the configuration offer the Unicode request classes something to work on?
